@@ -364,7 +364,7 @@ def main(tier, replay=None):
         "item / use all / selected name / use library.all / deferred constant + body in another file / entity + "
         "architecture in another file / entity, component and configuration instantiation / configuration / context "
         "declaration + reference / generic package + instance / same name different kind / mutual dependencies / "
-        "unused declarations and sensitivity-list lints / empty / broken text); a quarter of the histories are chain scenarios D <- U <- W <- X where D is what U is missing (use library.all / missing lib.pkg / package body / architecture or entity named in an instantiation, configuration in the chain) and the file of D is filled, emptied, restored, or a 3-unit file copied to a second file (all parked as duplicates) and the original emptied; also one user of the same unit name in two libraries (lib_b.pkg / lib_c.pkg, lib_b.ent(a1) / lib_c.ent(a1)) whose definitions come and go in either order, and `use lib.all` + entity lib.ent(rtl) with in-place edits that only move the architecture (shift steps: comment lines or a filler unit inserted above); a quarter of all updates reach the project through another Source object than get_source + change (Source::inline / Source::from_latin1_file, path absolute, relative to the current directory, './'-prefixed); histories that edit the files of std / ieee themselves (comment appended, original restored: standard, textio, env, std_logic_1164 + body, numeric_std + body) with users of the special-cased entities (matching operators on arrays of std_ulogic, time / string / boolean, 'image, to_string, textio, env, numeric_std); histories of 1-8 (thorough 1-12) steps: "
+        "unused declarations and sensitivity-list lints / empty / broken text); a quarter of the histories are chain scenarios D <- U <- W <- X where D is what U is missing (use library.all / missing lib.pkg / package body / architecture or entity named in an instantiation, configuration in the chain) and the file of D is filled, emptied, restored, or a 3-unit file copied to a second file (all parked as duplicates) and the original emptied; also one user of the same unit name in two libraries (lib_b.pkg / lib_c.pkg, lib_b.ent(a1) / lib_c.ent(a1)) whose definitions come and go in either order, and `use lib.all` + entity lib.ent(rtl) with in-place edits that only move the architecture (shift steps: comment lines or a filler unit inserted above); appended to every random stream, count/8 histories (generator of their own) in which ONE unit looks up several missing units whose names share library and/or primary name (2-4 architectures of one entity incl. one named like the entity, entity + its architectures, one architecture name for two entities, one entity name in two libraries with architectures a1/a2 of either, packages pk1/pk2 + entity pk1(pk1) in another library, package + body + entity pk(pk)), references in random order, each missing unit in a file of its own that is filled / emptied / replaced / restored in random order; a quarter of all updates reach the project through another Source object than get_source + change (Source::inline / Source::from_latin1_file, path absolute, relative to the current directory, './'-prefixed); histories that edit the files of std / ieee themselves (comment appended, original restored: standard, textio, env, std_logic_1164 + body, numeric_std + body) with users of the special-cased entities (matching operators on arrays of std_ulogic, time / string / boolean, 'image, to_string, textio, env, numeric_std); histories of 1-8 (thorough 1-12) steps: "
         "replace, empty, restore, unmapped file via Source::inline, swap as two steps; after every step diagnostics "
         "(code, file, range, message, related as multiset) and find_all_entity_references of every file vs a freshly "
         "loaded Project; steps whose fresh world has a unit name in two files of one library are skipped, not removed; "
